@@ -17,6 +17,7 @@ class PCfg:
         base=None, cuts2=(), qcut2=None, adapters2=(), length2=None, pair_adapters=False, pair_filter=None,
         min_len=None, max_len=None,          # strings as given to -m / -M: "10", "10:20", "10:", ":20"
         combinatorial=False, interleaved_in=False, interleaved_out=False,
+        redirect_two=False,   # with an interleaved main output the redirect files are still given as two files
     )
 
     def __init__(self, **kw):
@@ -63,15 +64,15 @@ class PCfg:
         inter_out = self.interleaved_out and not (b.demux or self.combinatorial)
         if b.untrimmed_output:
             groups.append(["--untrimmed-output", os.path.join(d, "untrimmed.1." + ext)])
-            if not inter_out:
+            if not inter_out or self.redirect_two:
                 groups.append(["--untrimmed-paired-output", os.path.join(d, "untrimmed.2." + ext)])
         if b.too_short_output:
             groups.append(["--too-short-output", os.path.join(d, "tooshort.1." + ext)])
-            if not inter_out:
+            if not inter_out or self.redirect_two:
                 groups.append(["--too-short-paired-output", os.path.join(d, "tooshort.2." + ext)])
         if b.too_long_output:
             groups.append(["--too-long-output", os.path.join(d, "toolong.1." + ext)])
-            if not inter_out:
+            if not inter_out or self.redirect_two:
                 groups.append(["--too-long-paired-output", os.path.join(d, "toolong.2." + ext)])
         if rng is not None:
             keep = ("-u", "-U", "-a", "-g", "-b", "-A", "-G", "-B", "--strip-suffix")
@@ -155,8 +156,9 @@ def run_impl(pcfg, pairs, d, rng=None):
     except Exception as e:  # noqa
         code, err = -1, "%s: %s" % (type(e).__name__, e)
     finally:
+        captured = sys.stdout.getvalue() if hasattr(sys.stdout, "getvalue") else ""
         sys.stdout, sys.stderr = old
-    res = {"exit": code, "error": err, "argv": argv, "files": {}, "report": None, "raw_counts": {}}
+    res = {"exit": code, "error": err, "argv": argv, "files": {}, "report": None, "raw_counts": {}, "stdout": captured}
     if code != 0:
         return res
     singles = {}
@@ -404,6 +406,7 @@ def rand_pcase(rng, focus=(), npairs=None):
             base.discard_trimmed = False
     p.interleaved_in = rng.random() < 0.25
     p.interleaved_out = rng.random() < 0.2
+    p.redirect_two = p.interleaved_out and rng.random() < 0.5
     n = rng.choice([1, 3, 6, 10]) if npairs is None else npairs
     pairs = []
     for i in range(n):
